@@ -74,10 +74,10 @@ let () =
             string_of_int (find 0 cc_sorted)
           | _ -> "panic") vs) in
       if cc <> lists cc_ref then Buffer.add_string buf "model!=ref ";
-      Buffer.add_string buf (Printf.sprintf "n=%d m=%d D=%s ec=%s di=%s ra=%s cc=%s cv=%s" n !m dm ec di ra cc cv);
-      (* Girth: the model value goes to the strict part (only its upper-bound half is proved);
-         the projected gi is the proved reference, computed at level 1 *)
+      (* Girth: the model (proved exact, Props/C10_cycles.v: C10_girth_model) gives gm at every
+         level; the projected gi at level 1 is the proved reference *)
       let gmodel = out (fun z -> string_of_int (int_of_z z)) (girth_go g) in
+      Buffer.add_string buf (Printf.sprintf "n=%d m=%d D=%s ec=%s di=%s ra=%s cc=%s cv=%s gm=%s" n !m dm ec di ra cc cv gmodel);
       if level >= 1 && gmodel <> string_of_int (int_of_z (zgirth g)) then Buffer.add_string buf " girthmodel!=ref";
       (* above the size where the references are affordable the model of BiconnectedComponents is
          still run: it must not panic or run out of fuel *)
@@ -102,6 +102,22 @@ let () =
               match number_of_induced_paths_go g k with
               | Done l -> if nats "." l <> nats "." (ipaths_bounded_ref g k) then Buffer.add_string buf " ipmodel!=ref"
               | _ -> Buffer.add_string buf " ipmodel-panic") bounds;
+        (* the model of NumberOfInducedCycles (Invariants/CycleICModel.v, proved equal to the
+           reference in Props/C10_cycles.v): every bound when n <= 5, the bounds -1, 0, 3, 4 above; "icmodel!=ref" never seen *)
+        List.iter (fun k ->
+            if n <= 5 || List.mem (int_of_z k) [-1; 0; 3; 4] then
+              match number_of_induced_cycles_go g k with
+              | Done l -> if nats "." l <> nats "." (icycles_bounded_ref g k) then Buffer.add_string buf " icmodel!=ref"
+              | _ -> Buffer.add_string buf " icmodel-panic") bounds;
+        (* the model of NumberOfCycles (Invariants/CycleNCModel.v: Paton's fundamental cycles and
+           Gibbs' algorithm per block, on top of the model of BiconnectedComponents): must equal
+           the reference ("ncmodel!=ref" never seen).  Gibbs' algorithm keeps all 2^(m-n+1) - 1
+           combinations: the model is run when m - n < 10 *)
+        if !m - n < 10 then begin
+          match number_of_cycles_go g with
+          | Done l -> if nats "." l <> nats "." (cycles_ref g) then Buffer.add_string buf " ncmodel!=ref"
+          | _ -> Buffer.add_string buf " ncmodel-panic"
+        end;
         Buffer.add_string buf (Printf.sprintf " gi=%d bl=%s ar=%s cy=%s ic=%s ip=%s icb=%s ipb=%s"
           (int_of_z (zgirth g)) (lists blocks) (ints "." arts)
           (nats "." (cycles_ref g)) (nats "." (icycles_ref g)) (nats "." (ipaths_ref g))
